@@ -25,7 +25,9 @@ THEOREMS = [
     "KrroodVerif.Eql.union_cells_typed",
     "KrroodVerif.Eql.C01_cex_negUnion",
     "KrroodVerif.Eql.C01_cex_selectIndependent",
-    "KrroodVerif.Eql.C01_cex_falsyBound",
+    "KrroodVerif.Eql.C01_cex_falsyBound",  # witness of the REPAIRED F-C01-3: evaluation now equals the specification
+    "KrroodVerif.Eql.C01_boundVar_flag",
+    "KrroodVerif.Eql.C01_boundVar_asCondition",
     "KrroodVerif.Eql.C01_cex_existsDedup",
     "KrroodVerif.Eql.C01_cex_forAllEmpty",
     "KrroodVerif.Eql.C01_cex_existsKeyError",
@@ -45,7 +47,8 @@ ASSUMPTIONS = [
     "user attribute access has no side effects; object truthiness is the default (always true)",
 ]
 RULE = ("corpus, then random condition trees (depth<=3, 1-3 variables + dedicated quantifier variables, int and "
-        "object domains of 0-4 elements incl. falsy values, empty domains and value-equal distinct objects; or_ with "
+        "object domains of 0-4 elements incl. falsy values (no longer excused: F-C01-3 is repaired, a falsy bound value "
+        "must behave like any other operand), empty domains and value-equal distinct objects; or_ with "
         "all variable-set relations; 1-4 selected expressions); non-trivial = the specified answer set is neither "
         "empty nor the full product; distinct by case text")
 
